@@ -39,6 +39,7 @@ class Run(object):
         # hooks (set by engines)
         self.on_begin = None     # f(run)  -- top-level begin: scheduling point
         self.on_stmt = None      # f(run, k, sql, params, conn) -- may raise
+        self.on_after_stmt = None  # f(run, k, sql, conn) -- may raise
         self.on_commit = None    # f(run, j, phase, conn) phase in ('before','after')
         self.on_end_txn = None   # f(run, txn)
         self.ncommit = 0
@@ -65,6 +66,7 @@ class Probe(object):
         event.listen(eng, 'commit', self._commit)
         event.listen(eng, 'rollback', self._rollback)
         event.listen(eng, 'before_cursor_execute', self._before)
+        event.listen(eng, 'after_cursor_execute', self._after)
         if authorizer:
             event.listen(eng, 'connect', self._connect)
         self.locked_errors = 0
@@ -142,6 +144,13 @@ class Probe(object):
                 t.writes.add(m.group(1) if m else '?')
         if run.on_stmt is not None:
             run.on_stmt(run, k, statement, parameters, conn)
+
+
+    def _after(self, conn, cursor, statement, parameters, context, executemany):
+        run = self.cur
+        if run is None or run.on_after_stmt is None or run.dead:
+            return
+        run.on_after_stmt(run, len(run.stmts) - 1, statement, conn)
 
 
 def _plain(p):
